@@ -216,15 +216,15 @@ func resolveRegFields(fs []RegField, pool [][]RegField) ([]RegField, error) {
 			f.Pool, f.Sub = 0, nil
 			continue
 		}
-		src := f.Sub
+		src, subPool := f.Sub, pool
 		if f.Pool != 0 {
 			if f.Pool < 1 || f.Pool > len(pool) {
 				return nil, fmt.Errorf("pool reference %d out of range", f.Pool)
 			}
-			src = pool[f.Pool-1]
+			src, subPool = pool[f.Pool-1], nil // pool entries hold no pool references themselves
 			f.Pool = 0
 		}
-		sub, err := resolveRegFields(src, nil) // pool entries hold no pool references
+		sub, err := resolveRegFields(src, subPool)
 		if err != nil {
 			return nil, err
 		}
